@@ -79,3 +79,55 @@ def run(ctx, fx, file, struct_path, a, b, rule="R-PARALLEL"):
                           (side, k, lines.get((side, k)), other, sorted(ops[other]), other), fn.file, lines.get((side, k)))
     ctx.instance(rule + ".functions", n)
     return n
+
+
+# ------------------------------------------------------------------ R-CLEAR
+RESET_CALLS = ("clear", "truncate", "fill", "resize", "drain", "retain", "take", "replace", "shrink_to_fit", "resize_with",
+               "clear_and_shrink", "reset", "set_len", "split_off")
+
+
+def clear_completeness(ctx, fx, file, struct_path, method="clear", exempt=(), rule="R-CLEAR"):
+    """`clear()` brings every collection-typed field of the struct back to its empty state: a field whose companion
+    counter is reset while the collection keeps its elements (a free-slot stack that survives the clear) leaves stale
+    indices behind for the next insert."""
+    adt = fx.adts.get(struct_path)
+    if adt is None:
+        raise Exception("R-CLEAR: struct %s not found" % struct_path)
+    coll = [f[0] for f in adt["variants"][0]["fields"]
+            if any(k in f[1] for k in ("Vec<", "VecDeque<", "HashMap<", "HashSet<", "BTreeMap<", "BTreeSet<", "FastVec<"))]
+    fids = [i for i in fx.fn_ids(file) if i.endswith("::" + method) and "::tests::" not in i
+            and (fx.raw(i)["self_ty"] or "").split("<")[0].endswith(struct_path)]
+    if not fids:
+        raise Exception("R-CLEAR: %s::%s not found" % (struct_path, method))
+    fn = Fn(fx.raw(fids[0]))
+    ctx.analysed_fns.add(fn.id)
+
+    def touched(f, depth=0):
+        out = set()
+        for loc, st in f.iter_locs():
+            if st[0] == "a" and len(st[1]) > 1:
+                for e in st[1][1:]:
+                    if isinstance(e, str) and e.startswith("." + struct_path + "::"):
+                        out.add(e.rsplit("::", 1)[-1])
+        for b, c in f.calls():
+            last = c["f"].rsplit("::", 1)[-1]
+            if last in RESET_CALLS and c["a"] and op_local(c["a"][0]) is not None:
+                out |= field_of_receiver(f, op_local(c["a"][0]), struct_path)
+            elif depth < 1 and c.get("loc") and fx.has(c["f"]) and (fx.raw(c["f"])["self_ty"] or "").split("<")[0].endswith(struct_path):
+                out |= touched(Fn(fx.raw(c["f"])), depth + 1)
+        return out
+    t = touched(fn)
+    n = 0
+    for fld in coll:
+        if fld in exempt:
+            continue
+        n += 1
+        ok = fld in t
+        ctx.obligation(rule, fn.id, "clear resets %s" % fld, ok, sample={"fn": fn.id, "field": fld, "reset": ok})
+        if not ok:
+            ctx.violation(rule, fn.id, "%s survives clear()" % fld,
+                          "%s::clear() never empties or reassigns the collection field `%s`: its old contents (slot indices, "
+                          "entries) are still there when the structure is used again" % (struct_path.rsplit("::", 1)[-1], fld),
+                          fn.file, fn.line)
+    ctx.instance(rule + ".fields", n)
+    return n
